@@ -390,8 +390,8 @@ def replay(case):
 
         async def fake_sleep(d):
             log.append(("sleep", d, fc._ready.is_set()))
-            if not case["ready"]:
-                # a RoutingBusy arrives while the sender sleeps for the 20 ms spacing
+            if True:
+                # adversarial schedule: a RoutingBusy arrives while the sender sleeps for the 20 ms spacing
                 fc._ready.clear()
                 asyncio.get_running_loop().call_later(0.01, fc._ready.set)
             await real_sleep(0)
